@@ -504,6 +504,33 @@ func runOnce(data []byte, claimed int64, useRA bool, budgetx int64, maxSeeks int
 	}
 	readPass(nil, &res.Rz, "read-zeroes")
 	readPass([]rac.CodecReader{&raczlib.CodecReader{}}, &res.Rl, "read-zlib")
+
+	// Phase 4: the CONCURRENT reader on files whose sequential read failed inside a chunk (a walkable index, a chunk
+	// that does not decode): Workers prefetch chunks the client never asks for, so an error can reach the client as
+	// an error-only unit of work after a seek.  Only panics and hangs count here (the runGuarded watchdog and the
+	// recover above); replies are timing dependent and are deliberately not recorded (the two runs of a case must
+	// give the same record).
+	if res.Rl.E == 1 && res.WalkE == 0 && len(res.Walk) >= 2 && !st.exceeded {
+		res.Phase = "read-concurrent"
+		tries := 12
+		for t := 0; t < tries; t++ {
+			r := &rac.Reader{ReadSeeker: bytes.NewReader(data), CompressedSize: claimed,
+				CodecReaders: []rac.CodecReader{&raczlib.CodecReader{}}, Concurrency: 2 + t%3}
+			buf := make([]byte, 64+64)[:64]
+			r.Read(buf[:1+pick(8)])
+			for k := 0; k < 4; k++ {
+				n := int64(1)
+				if ds > 0 {
+					n = ds
+				}
+				if _, err := r.Seek(int64(pick(int(n%(1<<20))+1)), io.SeekStart); err != nil {
+					break
+				}
+				r.Read(buf[:1+pick(16)])
+			}
+			r.Close()
+		}
+	}
 	res.Phase = ""
 }
 
